@@ -219,38 +219,42 @@ def findAlign (spec : List Char) : Option (Nat × Char) :=
   | [a] => if isAlign a then some (0, a) else none
   | a :: b :: _ => if isAlign b then some (1, b) else if isAlign a then some (0, a) else none
 
-/-- `__format__` up to the computation of the pads: `(left pad, right pad)`; the result of the
-real method is `left + str(self) + right` -/
-def formatPads (scrlen : Nat) (spec : List Char) : Except Fail (List Char × List Char) :=
-  -- type character
-  let stripped : Except Fail (List Char) :=
-    match spec.getLast? with
-    | none => .ok spec
-    | some last =>
-      if last.toNat ≥ 128 then .error .unmodelled      -- `str.isdigit` of a non-ASCII character
-      else if isAsciiDigit last || isAlign last then .ok spec
-      else if last = 's' then .ok spec.dropLast
-      else .error (.py .valueError)
-  match stripped with
+/-- the first step of `__format__`: validate and strip the format type character -/
+def stripType (spec : List Char) : Except Fail (List Char) :=
+  match spec.getLast? with
+  | none => .ok spec
+  | some last =>
+    if last.toNat ≥ 128 then .error .unmodelled      -- `str.isdigit` of a non-ASCII character
+    else if isAsciiDigit last || isAlign last then .ok spec
+    else if last = 's' then .ok spec.dropLast
+    else .error (.py .valueError)
+
+/-- the rest of `__format__` up to the computation of the pads: `(left pad, right pad)` -/
+def padsOf (scrlen : Nat) (spec : List Char) : Except Fail (List Char × List Char) :=
+  let (alignPos, alignCh) : Int × Char :=
+    match findAlign spec with
+    | some (p, c) => ((p : Int), c)
+    | none => (-1, '<')
+  let widthPart := spec.drop (alignPos + 1).toNat
+  match parseWidth widthPart with
   | .error e => .error e
-  | .ok spec =>
-    let (alignPos, alignCh) : Int × Char :=
-      match findAlign spec with
-      | some (p, c) => ((p : Int), c)
-      | none => (-1, '<')
-    let widthPart := spec.drop (alignPos + 1).toNat
-    match parseWidth widthPart with
-    | .error e => .error e
-    | .ok width =>
-      let fill : Char :=
-        match spec, alignPos with
-        | f :: _, 1 => f
-        | _, _ => ' '
-      let fw := width - scrlen      -- `max(width - self.scrlen, 0)`
-      if fw = 0 then .ok ([], [])
-      else if alignCh = '<' then .ok ([], List.replicate fw fill)
-      else if alignCh = '>' then .ok (List.replicate fw fill, [])
-      else .ok (List.replicate (fw / 2) fill, List.replicate (fw - fw / 2) fill)
+  | .ok width =>
+    let fill : Char :=
+      match spec, alignPos with
+      | f :: _, 1 => f
+      | _, _ => ' '
+    let fw := width - scrlen      -- `max(width - self.scrlen, 0)`
+    if fw = 0 then .ok ([], [])
+    else if alignCh = '<' then .ok ([], List.replicate fw fill)
+    else if alignCh = '>' then .ok (List.replicate fw fill, [])
+    else .ok (List.replicate (fw / 2) fill, List.replicate (fw - fw / 2) fill)
+
+/-- `__format__` up to the computation of the pads; the result of the real method is
+`left + str(self) + right` -/
+def formatPads (scrlen : Nat) (spec : List Char) : Except Fail (List Char × List Char) :=
+  match stripType spec with
+  | .error e => .error e
+  | .ok spec => padsOf scrlen spec
 
 def Chunk.cells (c : Chunk) : Cells := c.text.map (·, c.col)
 
